@@ -28,11 +28,12 @@ WARN_RE = re.compile(r"^> > > *[^\s(]+\((\d+)\)(?::\d+)?: *warning #(\d+)")
 
 
 class Case:
-    __slots__ = ("tgt", "cpu", "pc", "mn", "args", "text", "real", "tag")
+    __slots__ = ("tgt", "cpu", "pc", "mn", "args", "text", "real", "tag", "load")
 
     def __init__(self, tgt, cpu, pc, mn, args, text, tag=""):
         self.tgt, self.cpu, self.pc, self.mn, self.args, self.text, self.tag = tgt, cpu, pc, mn, list(args), text, tag
         self.real = None
+        self.load = None     # load address when the statement stands in a PHASE block whose execution address is pc
 
     def req(self):
         return "%s %d %d %s %s | %s" % (self.tgt, self.cpu, self.pc, self.mn, " ".join(str(a) for a in self.args), self.real)
@@ -41,7 +42,10 @@ class Case:
         return (self.tgt, self.cpu, self.pc, self.mn, tuple(self.args))
 
     def as_dict(self):
-        return dict(target=self.tgt, cpu=self.cpu, pc=self.pc, mnemonic=self.mn, args=self.args, source=self.text, real=self.real)
+        d = dict(target=self.tgt, cpu=self.cpu, pc=self.pc, mnemonic=self.mn, args=self.args, source=self.text, real=self.real)
+        if self.load is not None:
+            d["load"] = self.load
+        return d
 
 
 # ----------------------------------------------------------------------------------------------
@@ -384,9 +388,16 @@ def observe(T, bdir, wd, cpuname, cases, stats):
         lines = T.header(cpuname)
         owner = {}
         for k, c in enumerate(live):
-            lines.append(T.org(c.pc))
-            lines.append(c.text)
-            owner[len(lines)] = c
+            if c.load is None:
+                lines.append(T.org(c.pc))
+                lines.append(c.text)
+                owner[len(lines)] = c
+            else:
+                # the statement is loaded at c.load and runs at c.pc: everything the instruction set says about "the address of
+                # the instruction" (relative distances, page rules) refers to the execution address
+                lines += [T.org(c.load), "\tphase %d" % c.pc, c.text]
+                owner[len(lines)] = c
+                lines.append("\tdephase")
             lines.append(T.org(T.sentinel))
             lines.append(T.sent(k))
         rc, errs, warns, data, out = run_asl(bdir, wd, "t%s_%s_%d" % (T.name, cpuname, rnd), lines)
@@ -419,8 +430,8 @@ def observe(T, bdir, wd, cpuname, cases, stats):
                 c.real = "none"   # neither code nor error
                 i += 1
                 continue
-            if r[4] != c.pc:
-                problems.append("record at %#x where the statement of case %d (pc %#x, %s) was expected" % (r[4], k, c.pc, c.text))
+            if r[4] != (c.pc if c.load is None else c.load):
+                problems.append("record at %#x where the statement of case %d (pc %#x, load %s, %s) was expected" % (r[4], k, c.pc, c.load, c.text))
                 return problems
             c.real = bytes(r[5]).hex()
             i += 1
@@ -447,6 +458,16 @@ def run_target(T, bdir, wd, rng, tier, stats, extra_cases=()):
             seen.add(k)
             uniq.append(c)
     cases = uniq
+    # a share of the cases (and more of those with PC-relative or page-relative operands) is assembled inside a PHASE block
+    REL = ("rel", "branch", "jcn", "isz", "jr", "djnz", "rjmp", "jmp", "goto", "sym")
+    for c in cases:
+        if c.tag.startswith("corpus"):
+            continue
+        p = 0.25 if any(x in c.tag for x in REL) else 0.04
+        if rng.random() < p:
+            ld = c.pc ^ 0x40
+            if abs(ld - T.sentinel) > 8:
+                c.load = ld
     problems = []
     for cpuname, idx in T.cpus:
         sub = [c for c in cases if c.cpu == idx]
@@ -561,6 +582,7 @@ def replay(args):
         bdir = common.repo_build("hooks")
         common.lean_build(["asldrv"])
         c = Case(d["target"], d["cpu"], d["pc"], d["mnemonic"], d["args"], d["source"], "replay")
+        c.load = d.get("load")
         stats = dict(asl_runs=0, asl_lines=0, warnings={})
         with common.Workdir("c14r") as wd:
             cpuname = [n for n, i in T.cpus if i == c.cpu][0]
